@@ -27,6 +27,7 @@ func (m *MTProto) sendPacket(request tl.Object, expectedTypes ...reflect.Type) (
 	// must write synchroniously, cuz seqno must be upper each request. msgID is generating under the same lock:
 	// server expects that msgID of each next written message is bigger than previous one, so order of generating
 	// ids must be the same as order of writing messages
+	verifPoint("send.enter", request)
 	m.seqNoMutex.Lock()
 	defer m.seqNoMutex.Unlock()
 
@@ -34,6 +35,7 @@ func (m *MTProto) sendPacket(request tl.Object, expectedTypes ...reflect.Type) (
 		data  messages.Common
 		msgID = utils.GenerateMessageId()
 	)
+	verifPoint("send.msgid", msgID, request)
 
 	// adding types for parser if required
 	if len(expectedTypes) > 0 {
@@ -67,6 +69,8 @@ func (m *MTProto) sendPacket(request tl.Object, expectedTypes ...reflect.Type) (
 	if err != nil {
 		return nil, errors.Wrap(err, "sending request")
 	}
+
+	verifPoint("send.written", msgID, request, m.serverSalt)
 
 	if m.encrypted {
 		// since we sending this message, we are incrementing the seqno BUT ONLY when we
